@@ -340,6 +340,25 @@ def _replay_mle(n, method, with_kwargs=False):
     return replay
 
 
+def _probe_heavy_tail():
+    """powerlaw_sample for exponents close to 1 (legal: alpha > 1): draws exceed 2^63, where an integer dtype wraps around"""
+    import math
+    import numpy as np
+    from pyrepseq import stats
+    bad = []
+    for seed, size, xmin, alpha in [(1, 20000, 1, 1.1), (2, 20000, 2, 1.15), (3, 20000, 1, 1.2), (4, 5000, 3, 1.5), (5, 5000, 1, 2.0), (6, 1000, 7, 3.5), (7, 0, 1, 2.0)]:
+        np.random.seed(seed)
+        got = stats.powerlaw_sample(size=size, xmin=xmin, alpha=alpha)
+        vals = [float(v) for v in got]
+        if len(vals) != size:
+            bad.append(f"size={size} xmin={xmin} alpha={alpha}: {len(vals)} values")
+            continue
+        wrong = [v for v in vals if not (math.isfinite(v) and v >= xmin and float(v).is_integer())]
+        if wrong:
+            bad.append(f"seed={seed} size={size} xmin={xmin} alpha={alpha}: {len(wrong)} values are not integers >= xmin, e.g. {wrong[:3]}")
+    return not bad, "[heavy-tail probe] powerlaw_sample: " + ("; ".join(bad) if bad else "ok")
+
+
 def conditions(tier):
     out = []
     T = tier == "thorough"
@@ -361,4 +380,7 @@ def conditions(tier):
     for n in (1, 2) + ((3,) if T else ()):
         out.append(Condition(f"C17/powerlaw_mle_alpha/exact-caller-options/n={n}", _body_mle(n, "exact", True), _replay_mle(n, "exact", True), budget=300,
                              engine="SMT", bounds=f"{n} symbolic counts, symbolic cmin, caller-supplied symbolic bounds lo < hi and optimiser options"))
+    from harness import common as hc
+    out.append(hc.probe_condition("C17/probe/powerlaw_sample/heavy-tail", "powerlaw_sample with 1 000-20 000 draws for exponents 1.1 ... 3.5 (values beyond 2^63 occur for "
+                                  "exponents close to 1): every value finite, integer-valued and >= xmin", _probe_heavy_tail))
     return out
